@@ -41,6 +41,30 @@ def gen_chain(rng, sc, length):
     return chain
 
 
+def gen_rebase_chain(rng, length):
+    """chain of rebases of one type over plain mixin types: each step starts from the previous base list"""
+    old, new, tag = c02.gen_rebase_case(rng)
+    chain = [(c02._rebase_sdl(old), ['initial']), (c02._rebase_sdl(new), [tag])]
+    cur = new
+    for _ in range(length - 2):
+        for _try in range(20):
+            o2, n2, tag = c02.gen_rebase_case(rng)
+            # transplant the step's shape onto the current list: same length of `old` required
+            if len(o2) == len(cur):
+                ren = dict(zip(o2, cur))
+                free = [m for m in c02.MIXINS if m not in cur]
+                for m in n2:
+                    if m not in ren:
+                        ren[m] = free.pop(0) if free else None
+                if None in ren.values():
+                    continue
+                nxt = [ren[m] for m in n2]
+                chain.append((c02._rebase_sdl(nxt), [tag + ' (transplanted)']))
+                cur = nxt
+                break
+    return chain
+
+
 def check_chain(ctx: core.Ctx, eng: c02.Engine, chain, stream='chains', fixed_key=None) -> dict:
     """chain = [(sdl, tags)].  Returns a coverage record.  `fixed_key`: report failures under that key (corpus)."""
     sc = eng.sc
@@ -49,7 +73,7 @@ def check_chain(ctx: core.Ctx, eng: c02.Engine, chain, stream='chains', fixed_ke
     if eb is not None:
         raise core.Infra(f'cannot load the empty schema: {eb!r}')
     cur = base
-    rec = {'steps_ok': 0, 'outcome': 'ok', 'len': len(chain)}
+    rec = {'steps_ok': 0, 'outcome': 'ok', 'len': len(chain), 'causes': []}
     sdls = [c[0] for c in chain]
     for i, (sdl, tags) in enumerate(chain):
         tgt, _, et = eng.load(sdl)
@@ -61,24 +85,29 @@ def check_chain(ctx: core.Ctx, eng: c02.Engine, chain, stream='chains', fixed_ke
             rec['outcome'] = f'step-rejected:{c02.err_class(em)}'     # not accepted: outside the property
             return rec
         detail = {'chain': sdls[:i + 1], 'step': i + 1, 'mutations': tags, 'stream': stream}
-        diffs = c02.compare_with_target(eng, nxt, sdl)
+        key_in = c02.h8(*sdls[:i + 1])
+        diffs, dg = c02.compare_full(eng, nxt, sdl)
         if diffs:
-            ctx.fail(fixed_key or f'l2-chain:{c02.first_sig(diffs)}:{c02.h8(*sdls[:i + 1])}',
-                     f'after step {i + 1} of a chain of accepted migrations the schema differs from S{i + 1}',
-                     detail | {'differences': diffs[:25]})
+            script = sc.migration_script(nxt)
+            rec['causes'] = c02.report(
+                ctx, eng, 'chain', f'after step {i + 1} of a chain of accepted migrations the schema differs from S{i + 1}',
+                detail | {'ddl': script}, key_in, a=cur, dump_a=None, sdl_b=sdl, got=nxt, dump_got=dg, script=script,
+                lines=diffs, fixed_key=fixed_key)
             rec['outcome'] = 'FAIL-step'
             return rec
-        # direct migration ∅ -> Si
+        # direct migration ∅ -> Si (the chain result equals Si, so the direct result must equal Si too)
         direct, ed = eng.migrate(base, sdl)
         if ed is not None:
             ctx.notes.append(f'direct migration from empty rejected ({c02.err_class(ed)}) where the chain was accepted')
             rec['direct_rejected'] = rec.get('direct_rejected', 0) + 1
         else:
-            dd = sc.dump_diff(sc.dump(nxt), sc.dump(direct))
+            dd, dgd = c02.compare_full(eng, direct, sdl, full=False)
             if dd:
-                ctx.fail(fixed_key or f'l2-direct:{c02.first_sig(dd)}:{c02.h8(*sdls[:i + 1])}',
-                         f'chain result after step {i + 1} differs from the direct migration from the empty schema',
-                         detail | {'differences': dd[:25]})
+                script = sc.migration_script(direct)
+                rec['causes'] = c02.report(
+                    ctx, eng, 'direct', f'the direct migration from the empty schema to S{i + 1} differs from the '
+                    f'chain result (= S{i + 1})', detail | {'ddl': script}, key_in, a=base, dump_a=base_dump, sdl_b=sdl,
+                    got=direct, dump_got=dgd, script=script, lines=dd, fixed_key=fixed_key)
                 rec['outcome'] = 'FAIL-direct'
                 return rec
         cur = nxt
@@ -91,7 +120,7 @@ def check_chain(ctx: core.Ctx, eng: c02.Engine, chain, stream='chains', fixed_ke
     left = sc.user_objects(end)
     dd = sc.dump_diff(sc.dump(end), base_dump)
     if left or dd:
-        ctx.fail(fixed_key or f'l2-empty:{c02.first_sig(dd) if dd else "objects-left"}:{c02.h8(*sdls)}',
+        ctx.fail(fixed_key or f'l2-empty:unclassified:{c02.first_sig(dd) if dd else "objects-left"}:{c02.h8(*sdls)}',
                  'migrating to the empty schema leaves user objects behind',
                  {'chain': sdls, 'step': 'to-empty', 'left': left[:20], 'differences': dd[:25], 'stream': stream})
         rec['outcome'] = 'FAIL-empty'
@@ -106,7 +135,7 @@ def run_corpus(ctx: core.Ctx, eng: c02.Engine) -> dict:
     if os.path.exists(path):
         for case in json.load(open(path))['cases']:
             rec = check_chain(ctx, eng, [(s, []) for s in case['chain']], stream='corpus', fixed_key=case['key'])
-            res[case['key']] = rec['outcome']
+            res[case['key']] = rec['outcome'] + (' -> ' + ','.join(rec['causes']) if rec.get('causes') else '')
         ctx.log('corpus:', res)
     return res
 
@@ -136,13 +165,15 @@ def run(ctx: core.Ctx):
         r1 = c02.run_level1(ctx, [l1.gen_case(ctx.rng) for _ in range(ctx.budget(100, 5000))])
         n_chains = ctx.budget(10, 300)
         t0 = time.time()
-        deadline = t0 + ctx.budget(120, 1500)
+        deadline = t0 + ctx.budget(100, 1500)
         for i in range(n_chains):
             if time.time() > deadline and i >= ctx.budget(4, 60):
                 ctx.notes.append(f'stopped after {i} of {n_chains} chains (time budget)')
                 break
             length = ctx.rng.choice([2, 3, 4, 5]) if ctx.quick() else ctx.rng.choice([3, 4, 5, 6, 8])
             recs.append(check_chain(ctx, eng, gen_chain(ctx.rng, sc, length)))
+        for _ in range(ctx.budget(3, 60)):
+            recs.append(check_chain(ctx, eng, gen_rebase_chain(ctx.rng, ctx.rng.choice([3, 4])), stream='rebase-chains'))
         corpus = run_corpus(ctx, eng)
         ctx.log(f'{len(recs)} chains in {time.time() - t0:.1f}s; engine time '
                 f'{dict((k, round(v, 1)) for k, v in eng.t.items())}')
